@@ -242,6 +242,7 @@ func c04Specs(quick bool) []*SeqSpec {
 		op(0, U(0, 1, 1)),
 		tick(3 * sec), tick(5 * sec),
 	}})
+	specs = append(specs, &SeqSpec{Name: "queue-order-over-connections", Cfg: cfg, Alphabet: c04Alphabet(quick), Depth: d - 2, Drain: true, Full: true, NoDedupe: true, MaxStates: 600000})
 	for _, n := range ramps {
 		specs = append(specs, &SeqSpec{Name: fmt.Sprintf("ramp-%d-waiters", n), Cfg: cfg, Ramp: rampWaiters(n, false), Alphabet: rampWaitAlphabet(n), Depth: rd, Drain: true, DrainFor: 70 * sec})
 		specs = append(specs, &SeqSpec{Name: fmt.Sprintf("ramp-%d-waiters-prio", n), Cfg: cfg, Ramp: rampWaiters(n, true), Alphabet: rampWaitAlphabet(n), Depth: rd, Drain: true, DrainFor: 70 * sec})
@@ -414,7 +415,7 @@ func init() {
 			return &SchedPlan{Specs: append(waitSchedSpecs(q), coreSchedSpecs(q)[2:5]...), Oracles: []Oracle{OracleC04Quiescent, OracleC03}, Bound: schedBound, MaxExec: schedCap(4000)}
 		},
 		seq: func(q bool) *SeqPlan {
-			return &SeqPlan{Specs: c04Specs(q), Oracles: []SeqOracle{OracleRef(RefOpts{Results: true, State: true, Prefix: "C04"}), SeqOracleC04, SeqOracleC03}}
+			return &SeqPlan{Specs: c04Specs(q), Oracles: []SeqOracle{OracleRefMem(RefOpts{Results: true, State: true, Prefix: "C04"}), SeqOracleC04, SeqOracleC03, OracleFullVsMem("C04")}}
 		},
 		rule:        "schedule DFS of unlockers, newcomers, cancellers and the timeout sweeper on one key (quiescent invariant: the live head waiter is never admissible; every queued request is answered), plus BFS over queueing histories from empty and from ramped queues (7-9 / 127-130 waiters, with and without a differing priority) compared with the reference grant order (priority first, arrival order among equals); non-trivial = at least two client threads answered",
 		note:        "queue histories: result codes, the set and order of replies per step, and the live queue order after every step equal RefLockDB; each state is drained",
@@ -445,7 +446,10 @@ func init() {
 				// request with another priority arrives and the queue is rebuilt as a priority ring
 				{Name: "counts-ramp-3-waiters-fifo", Cfg: cfg, Ramp: rampWaiters(3, false), Alphabet: rampWaitAlphabet(3), Depth: 3, Drain: true, DrainFor: 70 * sec},
 				{Name: "counts-ramp-6-waiters-fifo", Cfg: cfg, Ramp: rampWaiters(6, false), Alphabet: rampWaitAlphabet(6), Depth: 3, Drain: true, DrainFor: 70 * sec},
-			}, Oracles: []SeqOracle{OracleRef(RefOpts{Counts: true, Prefix: "C17"}), SeqOracleC17}}
+				// over real binary connections of a full node (replies carry the counts as decoded from the wire; the
+				// census after the drain covers the connection layer's own bookkeeping)
+				{Name: "counts-queue-over-connections", Cfg: cfg, Alphabet: c04Alphabet(q), Depth: d - 1, Drain: true, Full: true, NoDedupe: true, MaxStates: 400000},
+			}, Oracles: []SeqOracle{OracleRefMem(RefOpts{Counts: true, Prefix: "C17"}), SeqOracleC17, OracleFullVsMem("C17")}}
 		},
 		rule:        "schedule DFS of the C01/C03/C04 scenarios, each ending in a drain (unlock all, clock advanced past the 8-step re-check ladder and the delayed manager removal); STATE counters are compared with a census of the engine's live structures at three quiescent points; non-trivial = at least two client threads answered",
 		note:        "histories: after every step LCount/LRCount of each reply equal RefLockDB and STATE.{LockedCount,WaitCount,KeyCount} equal a census taken by walking managers, holder/wait queues, timer wheels, long tables and delayed-removal queues; every state is drained and must be empty (counters 0, no value, no record left in any wheel)",
